@@ -11,6 +11,8 @@ use rand_distr;
 use rayon::prelude::*;
 
 use crate::math::{consts::*, types::*};
+#[cfg(qvnt_verif)]
+use crate::verif::thread_rng;
 
 const MIN_BUFFER_LEN: usize = 8;
 const MAX_LEN_TO_DISPLAY: usize = 8;
@@ -498,6 +500,8 @@ impl Reg {
         let rand_idx =
             thread_rng().sample(rand_distr::WeightedIndex::new(self.get_probabilities()).unwrap());
 
+        #[cfg(qvnt_verif)]
+        crate::verif::log_measure(mask, rand_idx);
         self.collapse_mask(rand_idx, mask);
         self.normalize();
         super::CReg::with_state(self.q_num, rand_idx & mask)
@@ -515,6 +519,9 @@ impl Reg {
     /// If you want to simulate the execution of quantum computer, you would prefer [`sample_all`](Reg::sample_all).
     pub fn sample_all(&self, count: N) -> Vec<N> {
         use std::cmp::Ordering;
+
+        #[cfg(qvnt_verif)]
+        use crate::verif::shim as rand;
 
         let p = self.get_probabilities();
         let c = count as R;
@@ -608,6 +615,51 @@ impl Reg {
 impl Default for Reg {
     fn default() -> Self {
         Self::new(0)
+    }
+}
+
+#[cfg(qvnt_verif)]
+impl Reg {
+    /// The raw amplitude buffer, padding included.
+    pub fn verif_psi(&self) -> &[C] {
+        &self.psi
+    }
+
+    /// Overwrite the amplitude buffer (any length, any content).
+    pub fn verif_set_psi(&mut self, psi: Vec<C>) {
+        self.psi = psi;
+    }
+
+    pub fn verif_q_mask(&self) -> N {
+        self.q_mask
+    }
+
+    pub fn verif_collapse_mask(&mut self, idy: N, mask: N) {
+        self.collapse_mask(idy, mask)
+    }
+
+    pub fn verif_reset_by_mask(&mut self, mask: N) {
+        self.reset_by_mask(mask)
+    }
+
+    pub fn verif_normalize(&mut self) {
+        self.normalize();
+    }
+
+    pub fn verif_reset(&mut self, i_state: N) {
+        self.reset(i_state)
+    }
+
+    pub fn verif_set_num_no_realloc(&mut self, q_num: N) {
+        self.set_num_no_realloc(q_num)
+    }
+
+    pub fn verif_threads(&self) -> usize {
+        match self.th {
+            threading::Single => 1,
+            #[cfg(feature = "multi-thread")]
+            threading::Multi(n) => n,
+        }
     }
 }
 
